@@ -1320,3 +1320,94 @@ Proof.
     + match type of H with match ?X with _ => _ end = _ => destruct X as [ps|e]; [|discriminate] end.
       injection H as <-. cbn. repeat split.
 Qed.
+
+(* ---------- _categorize_parameters *)
+From PV Require Import Base.PyData Base.Expr Base.Interp C19.Categorize.
+
+Definition cat_inv (pop : list id) (st : list id * list id) : Prop :=
+  (forall x, In x (fst st) -> ~ In x (snd st)) /\ (forall x, In x (fst st) \/ In x (snd st) -> In x pop).
+
+Lemma In_interp_l x a b : In x (interp_l a b) <-> In x a /\ In x b.
+Proof. unfold interp_l. rewrite filter_In, memp_In. tauto. Qed.
+
+Lemma cat_step_inv pop etas symbols cur st :
+  (forall x, In x cur -> In x pop) -> cat_inv pop st -> cat_inv pop (cat_step etas symbols cur st).
+Proof.
+  intros HC [D S]. destruct st as [f r]. unfold cat_step. cbn [fst snd] in *.
+  destruct (interp_nonempty symbols etas); split; cbn [fst snd].
+  - intros x Hf Hr. apply In_diffp in Hf. destruct Hf as [Hf Hn]. apply In_unionp in Hr.
+    destruct Hr as [Hr|Hr]; [apply (D x Hf Hr)|contradiction].
+  - intros x [H|H]; [apply In_diffp in H; apply S; left; apply H|].
+    apply In_unionp in H. destruct H as [H|H]; [apply S; right; exact H|apply HC; exact H].
+  - intros x Hf Hr. apply In_unionp in Hf. destruct Hf as [Hf|Hf]; [apply (D x Hf Hr)|].
+    apply In_diffp in Hf. destruct Hf as [_ Hn]. contradiction.
+  - intros x [H|H]; [|apply S; right; exact H].
+    apply In_unionp in H. destruct H as [H|H]; [apply S; left; exact H|].
+    apply In_diffp in H. apply HC. apply H.
+Qed.
+
+Lemma fold_left_inv {A B} (P : A -> Prop) (f : A -> B -> A) l : forall a,
+  P a -> (forall a b, P a -> P (f a b)) -> P (fold_left f l a).
+Proof. induction l as [|b tl IH]; intros a Ha Hf; cbn [fold_left]; [exact Ha|]. apply IH; [apply Hf; exact Ha|exact Hf]. Qed.
+
+Lemma categorize_inv m : cat_inv (cm_nonfixed m) (categorize m).
+Proof.
+  unfold categorize. apply fold_left_inv.
+  - apply fold_left_inv.
+    + split; cbn [fst snd]; [intros x []|]. intros x [[]|H]. apply In_interp_l in H. apply H.
+    + intros st ip Hst. apply cat_step_inv; [|exact Hst]. intros x H. apply In_interp_l in H. apply H.
+  - intros st y Hst. apply cat_step_inv; [|exact Hst].
+    intros x H. apply In_unionp in H. destruct H as [H|H]; apply In_interp_l in H; apply H.
+Qed.
+
+Lemma cat_step_random etas symbols cur f r :
+  interp_nonempty symbols etas = true ->
+  forall x, In x cur -> In x (snd (cat_step etas symbols cur (f, r))) /\ ~ In x (fst (cat_step etas symbols cur (f, r))).
+Proof.
+  intros E x Hx. unfold cat_step. rewrite E. cbn [fst snd]. split.
+  - apply In_unionp. right. exact Hx.
+  - intro H. apply In_diffp in H. destruct H as [_ H]. contradiction.
+Qed.
+Lemma cat_step_fixed etas symbols cur f r :
+  interp_nonempty symbols etas = false ->
+  snd (cat_step etas symbols cur (f, r)) = r /\
+  forall x, In x cur -> ~ In x r -> In x (fst (cat_step etas symbols cur (f, r))).
+Proof.
+  intros E. unfold cat_step. rewrite E. cbn [fst snd]. split; [reflexivity|].
+  intros x Hx Hn. apply In_unionp. right. apply In_diffp. split; assumption.
+Qed.
+
+Lemma zero_eta_constant m d eta :
+  In d (cm_rvs m) -> is_zero_dist m d = true -> In eta (rd_names d) ->
+  alook (zero_syms m) [] eta = AConst (Some 0%Q).
+Proof.
+  intros Hd Hz He. unfold alook. cbn [alookup_v].
+  assert (M : memp eta (zero_syms m) = true).
+  { apply memp_In. unfold zero_syms. apply in_flat_map. exists d. split.
+    - apply filter_In. split; assumption.
+    - apply in_or_app. right. exact He. }
+  rewrite M. reflexivity.
+Qed.
+Lemma amul_zero_l v : amul (AConst (Some 0%Q)) v = AConst (Some 0%Q).
+Proof. destruct v as [[q|]|s]; reflexivity. Qed.
+Lemma amul_zero_r v : amul v (AConst (Some 0%Q)) = AConst (Some 0%Q).
+Proof.
+  destruct v as [[q|]|s]; unfold amul; try reflexivity.
+  f_equal. f_equal. transitivity (Qred 0); [apply Qred_complete; ring|reflexivity].
+Qed.
+Lemma zero_factor_vanishes look eta a :
+  look eta = AConst (Some 0%Q) ->
+  aeval look (Mul (Sym eta) a) = AConst (Some 0%Q) /\ aeval look (Mul a (Sym eta)) = AConst (Some 0%Q)
+  /\ aeval look (Fn1 F_EXP (Sym eta)) = AConst (Some 1%Q).
+Proof.
+  intro H. cbn [aeval]. rewrite H. repeat split; [apply amul_zero_l|apply amul_zero_r].
+Qed.
+
+Lemma bic_mixed_over_categorize_lemma logf c m o :
+  c_nrandm c = cat_nrand m -> c_nfixm c = cat_nfix m ->
+  calculate_bic logf (Some BMixed) c o =
+  Ok (o + (natQ (length (normp (snd (categorize m)))) * logf (c_nsubs c)
+           + natQ (length (normp (fst (categorize m)))) * logf (c_nobs c)))%Q.
+Proof.
+  intros H1 H2. unfold calculate_bic, bic_penalty. rewrite H1, H2. reflexivity.
+Qed.
